@@ -549,7 +549,7 @@ class Facts:
         for f in self.fns:
             self.by_npath[f.npath].append(f)
         self.adts = {a["path"]: a for a in raw["adts"]}
-        self.consts = {c["path"]: c for c in raw["consts"]}
+        self.consts = {strip_generics(c["path"]): c for c in raw["consts"]}
 
     def fn(self, name, unique=True):
         """Find a function by normalised path suffix. Raises KeyError when missing/ambiguous."""
